@@ -303,9 +303,17 @@ func runC16(c *Check, a *Analysis) {
 				switch x := o.(type) {
 				case *ssa.Const:
 				case *ssa.Extract:
-					if call, isC := x.Tuple.(*ssa.Call); !isC || calleeName(call) != "(*Client).schedule" {
-						okR, why = false, describe(o)
+					call, isC := x.Tuple.(*ssa.Call)
+					if isC && calleeName(call) == "(*Client).schedule" {
+						break
 					}
+					// the tail of director split into a helper: its own returned address obeys the same rule
+					if isC && x.Index == 0 {
+						if cal := call.Common().StaticCallee(); cal != nil && cal.Pkg == p.RPC && recvName(cal) == "Client" && addressOnlyFromSchedule(p, cal, 0) {
+							break
+						}
+					}
+					okR, why = false, describe(o)
 				case *ssa.Call:
 					// the hook: must be guarded by len(address) > 0 at this return
 					if isLoadOf(p.canon(x.Common().Value), "Client", "Director") {
@@ -1018,3 +1026,36 @@ func runC18(c *Check, a *Analysis) {
 }
 
 var _ = strings.HasPrefix
+
+// addressOnlyFromSchedule: every address fn returns (first result) is a
+// constant or schedule()'s first result (recursively through helpers).
+func addressOnlyFromSchedule(p *Prog, fn *ssa.Function, depth int) bool {
+	if fn == nil || fn.Blocks == nil || depth > 2 {
+		return false
+	}
+	ok := true
+	eachInstr(fn, func(in ssa.Instruction) {
+		r, isR := in.(*ssa.Return)
+		if !isR || len(r.Results) < 1 || (len(in.Block().Preds) == 0 && in.Block() != fn.Blocks[0]) {
+			return
+		}
+		for _, o := range p.origins(r.Results[0]) {
+			o = p.canon(o)
+			switch x := o.(type) {
+			case *ssa.Const:
+			case *ssa.Extract:
+				call, isC := x.Tuple.(*ssa.Call)
+				if isC && calleeName(call) == "(*Client).schedule" {
+					continue
+				}
+				if isC && x.Index == 0 && addressOnlyFromSchedule(p, call.Common().StaticCallee(), depth+1) {
+					continue
+				}
+				ok = false
+			default:
+				ok = false
+			}
+		}
+	})
+	return ok
+}
